@@ -174,6 +174,54 @@ def run_buffer_history(job):
     return out
 
 
+# ---------------------------------------------------------------- BufCache.tla behaviours replayed (C08 spec -> code)
+class _FakeTime:
+    """Virtual clock for jedi.cache's time caches: the model's Tick advances it."""
+    def __init__(self):
+        self.now = 1000.0
+
+    def time(self):
+        return self.now
+
+
+def run_model_behaviours(job):
+    """job = {families: {name: {texts: {id: text}, names_q: [m, l, c], sig_q: [m, l, c]}}, behaviours: [{family, steps}],
+    project, tick}.  steps: ["edit", slot, text] | ["tick"] | ["script", slot] | ["names"] | ["sig"].  One process for all
+    behaviours; caches are emptied between behaviours (the model's Init)."""
+    import jedi
+    import jedi.cache
+    import parso.cache
+    from jedi.api.environment import SameEnvironment
+    from harness.core import private_cache
+    private_cache()
+    clock = _FakeTime()
+    jedi.cache.time = clock                      # signature_time_cache / clear_time_caches read time.time()
+    env = SameEnvironment()
+    proj = jedi.Project(job['project'])
+    out = []
+    for bi, beh in enumerate(job['behaviours']):
+        fam = job['families'][beh['family']]
+        parso.cache.parser_cache.clear()
+        jedi.cache.clear_time_caches(True)
+        buf, script, cur = {}, None, None
+        res = []
+        for st in beh['steps']:
+            if st[0] == 'edit':
+                buf[st[1]] = st[2]
+            elif st[0] == 'tick':
+                clock.now += job['tick']
+            elif st[0] == 'script':
+                slot = st[1]
+                path = None if slot == 'nopath' else os.path.join(job['project'], slot + '.py')
+                script = jedi.Script(fam['texts'][str(buf[slot])], path=path, project=proj, environment=env)
+                cur = (slot, buf[slot])
+            else:
+                q = fam['names_q'] if st[0] == 'names' else fam['sig_q']
+                res.append({'q': st[0], 'slot': cur[0], 'text': cur[1], 'answer': answers(script, [q])[0]})
+        out.append(res)
+    return out
+
+
 def serve():
     """C09: a long-lived process answering queries about a project on disk, one new Script per request.
     Protocol: one JSON object per line on stdin -> one JSON object per line on stdout."""
@@ -201,12 +249,16 @@ def serve():
     if getattr(parso.grammar, 'load_module', None) is orig:
         parso.grammar.load_module = load_module
     env = SameEnvironment()
+    projects = {}
     for line in sys.stdin:
         req = json.loads(line)
         if req.get('cache_dir'):
             jedi.settings.cache_directory = req['cache_dir']
         del decisions[:]
-        proj = jedi.Project(req['project'])
+        # like an editor plugin / language server: ONE Project object per project root, a new Script per request
+        proj = projects.get(req['project'])
+        if proj is None:
+            proj = projects[req['project']] = jedi.Project(req['project'])
         s = jedi.Script(req['src'], path=req.get('path'), project=proj, environment=env)
         res = answers(s, req['queries'])
         sys.stdout.write(json.dumps({'answers': res, 'decisions': list(decisions)}) + '\n')
@@ -220,6 +272,8 @@ def main():
     jobs = json.load(open(jp))
     if mode == 'history':
         res = [run_buffer_history(j) for j in jobs]
+    elif mode == 'model':
+        res = [run_model_behaviours(j) for j in jobs]
     else:
         raise SystemExit('unknown mode')
     json.dump(res, open(op, 'w'))
